@@ -291,7 +291,7 @@ def load_findings():
 
 
 def write_replay(prop, name, payload) -> str:
-    d = os.path.join(VERIF, "replays")
+    d = os.environ.get("VERIF_REPLAY_DIR") or os.path.join(VERIF, "replays")
     os.makedirs(d, exist_ok=True)
     path = os.path.join(d, f"{prop}_{name}.json")
     with open(path, "w") as f:
@@ -300,7 +300,7 @@ def write_replay(prop, name, payload) -> str:
 
 
 def write_evidence(prop, tier, seed, level, coverage, assumptions, wall_s, violations):
-    d = os.path.join(VERIF, "evidence")
+    d = os.environ.get("VERIF_EVIDENCE_DIR") or os.path.join(VERIF, "evidence")   # (redirected only by the mutant tools)
     os.makedirs(d, exist_ok=True)
     ev = dict(property_id=prop, tier=tier, seed=seed, level=level, coverage=coverage,
               assumptions=assumptions, wall_s=round(wall_s, 1), violations=violations)
